@@ -25,7 +25,9 @@ type WaterMark struct {
 	lastIndex uint64
 	Name      string
 
-	mu      sync.Mutex
+	// mu guards waiters. Slot updates hold it shared and a window rebuild holds
+	// it exclusively, so no update can land in a window while it is being copied.
+	mu      sync.RWMutex
 	waiters map[uint64]chan struct{}
 	window  atomic.Value // *watermarkWindow
 }
@@ -145,12 +147,18 @@ func (w *WaterMark) addIndex(index uint64, delta int32) {
 	if index == 0 {
 		return
 	}
-	win := w.ensureWindow(index)
+	w.ensureWindow(index)
+	verifhook.BeforeLock(&w.mu)
+	w.mu.RLock()
+	// Windows only grow and only move their base up to doneUntil+1, so an index
+	// that was inside the window stays inside until it is done.
+	win := w.loadWindow()
 	verifhook.Yield(win, "wm.add.window")
 	offset := index - win.base
 	if offset < uint64(len(win.slots)) {
 		win.slots[offset].Add(delta)
 	}
+	w.mu.RUnlock()
 	verifhook.Yield(win, "wm.add.added")
 	w.tryAdvance()
 }
